@@ -106,7 +106,11 @@ def variant(rng, k, comp=None):
 
 def item_str(it, ts):
     if it[0] == "d":
-        return "d:%s:%d:%d:%d:%s" % (kstr(it[1]), ts, it[2], 1 if it[3] else 0, hx(it[4]))
+        base = "d:%s:%d:%d:%d:%s" % (kstr(it[1]), ts, it[2], 1 if it[3] else 0, hx(it[4]))
+        # every third fragment carries reserved bits (IPv4 reserved flag; IPv6 fragment header reserved bits and
+        # reserved octet): they must not influence what counts as a fragment or where it lands
+        rsv = (len(it[4]) + it[2] + ts) % 8 if ts % 3 == 0 else 0
+        return base + (":%d" % rsv if rsv else "")
     if it[0] == "u":
         return "u:%s:%d:%s" % (kstr(it[1]), ts, hx(it[2]))
     if it[0] == "t":
@@ -543,6 +547,27 @@ def scenario_big(rng, tier):
     return finish(items, extra_meta={"scenario": "big"})
 
 
+def scenario_big_overlap(rng, tier, variant):
+    """large sections that are delivered twice or overlap: their lengths add up to more than 65535, which is
+    where 16 bit section arithmetic overflows"""
+    key = rand_key(rng)
+    n = rng.randrange(40000, 65001) // 8 * 8
+    payload = rbytes(rng, n, None)
+    if variant == 0:  # cut in the middle, first half twice
+        c = (n // 2 + rng.randrange(0, 2000)) // 8 * 8
+        items = [("d", key, 0, True, payload[:c]), ("d", key, 0, True, payload[:c]), ("d", key, c // 8, False, payload[c:])]
+    elif variant == 1:  # large last fragment twice, then the head
+        c = rng.randrange(16000, 30000) // 8 * 8
+        items = [("d", key, c // 8, False, payload[c:]), ("d", key, c // 8, False, payload[c:]), ("d", key, 0, True, payload[:c])]
+    else:  # two large overlapping fragments, either order
+        a = rng.randrange(36000, 44000) // 8 * 8
+        b = rng.randrange(16000, 28000) // 8 * 8
+        items = [("d", key, 0, True, payload[:a]), ("d", key, b // 8, False, payload[b:])]
+        if rng.random() < 0.5:
+            items.reverse()
+    return finish(items, extra_meta={"scenario": "big-overlap"})
+
+
 def perm_cases(rng, nfrag, ncuts):
     """every permutation of the fragments of a cut plus one duplicate"""
     for _ in range(ncuts):
@@ -618,6 +643,8 @@ def generate(rng, tier):
         yield scenario_noise(rng, tier)
     for _ in range(n_big):
         yield scenario_big(rng, tier)
+    for i in range(n_big):
+        yield scenario_big_overlap(rng, tier, i % 3)
     for _ in range(n_buf):
         yield buf_case(rng)
     # exhaustive permutations with one duplicate
